@@ -333,6 +333,8 @@ def import_corpus():
     add("bv-arith", BV + "(assert (= (bvadd u (bvmul v u)) (bvsub (bvneg u) (bvnot v))))")
     add("bv-div", BV + "(assert (and (= (bvudiv u v) (bvurem u v)) (= (bvsdiv u v) (bvsrem u v)) (= (bvsmod u v) u)))")
     add("bv-shift", BV + "(assert (and (= (bvshl u v) (bvlshr u v)) (= (bvashr u v) u)))")
+    add("shared-across-asserts", D + "(assert (and (or a b) (< (+ x y) z)))(assert (or (or a b) (< (+ x y) 3)))"
+        "(push 1)(assert (not (< (+ x y) z)))(check-sat)")
     add("bv-logic", BV + "(assert (= (bvand u (bvor v (bvxor u v))) (bvnand u (bvnor v (bvxnor u v)))))")
     add("bv-rel-unsigned", BV + "(assert (and (bvult u v) (bvule u v) (bvugt u v) (bvuge u v)))")
     add("bv-rel-signed", BV + "(assert (and (bvslt u v) (bvsle u v) (bvsgt u v) (bvsge u v)))")
@@ -427,8 +429,42 @@ def _cmd_list(w, it, script):
     return out
 
 
+def _judge_again(w, cmds, again):
+    if again[0] == "raise":
+        return ("invalid", "the re-serialised script is rejected by the parser: %s" % again[1])
+    elif again[0] == "unsupported":
+        return ("unsupported", again[1])
+    else:
+        c2 = again[2]
+        n1 = [n_ for n_, _a in cmds]
+        n2 = [n_ for n_, _a in c2]
+        if n1 != n2:
+            return ("invalid", "commands %s re-serialise to %s" % (n1, n2))
+        else:
+            bad = None
+            for (nm, a1), (_nm2, a2) in zip(cmds, c2):
+                if nm in ("maximize", "minimize", "assert-soft") and a1 and a2:
+                    o1 = dict((k_, _opt_sig(w, v_)) for k_, v_ in (w.it.iterate(a1[1]) if len(a1) > 1 and a1[1] else []))
+                    o2 = dict((k_, _opt_sig(w, v_)) for k_, v_ in (w.it.iterate(a2[1]) if len(a2) > 1 and a2[1] else []))
+                    if a1[0] is not a2[0] or o1 != o2:
+                        bad = "%s %s %s re-serialises to %s %s" % (nm, sc.node_str(w, a1[0]), o1, sc.node_str(w, a2[0]), o2)
+                        break
+                if nm == "assert" and a1 and a2 and a1[0] is not a2[0]:
+                    try:
+                        ok, why = textsem.equivalent(textsem.from_node(w, a1[0]), textsem.from_node(w, a2[0]))
+                    except textsem.NotConcrete:
+                        ok = None
+                    if ok is False:
+                        bad = "assert %s re-serialises to %s" % (sc.node_str(w, a1[0]), sc.node_str(w, a2[0]))
+                        break
+            return ("invalid", bad) if bad else ("valid", "%d commands" % len(n1))
+
+    return ("valid", "")
+
+
 def _import_job(job):
-    name, text, expect = job
+    name, text, expect = job[:3]
+    ref_text = job[3] if len(job) > 3 else text      # the same script in standard spelling (pySMT extensions)
     out = {"name": name, "expect": expect, "kind": None, "detail": "", "last": None}
 
     def call(w, it, f):
@@ -439,19 +475,21 @@ def _import_job(job):
             last = ("ok", it.call(it.getattr(script, "get_last_formula"), []))
         except AbsRaise as ex:
             last = ("raise", "%s%s" % (ex.cls_name, proc._args(ex)))
-        # re-serialise the command list and read it again
-        again = None
-        try:
-            sio = it.call(ExtRef("io.StringIO"), [])
-            it.call(it.getattr(script, "serialize"), [sio], {"daggify": False})
-            text2 = it.call(it.getattr(sio, "getvalue"), [])
-            ps2 = w.new_walker(PARSER, w.env)
-            script2 = it.call(it.getattr(ps2, "get_script"), [it.call(ExtRef("io.StringIO"), [text2])])
-            again = ("ok", text2, _cmd_list(w, it, script2))
-        except AbsRaise as ex:
-            again = ("raise", "%s%s" % (ex.cls_name, proc._args(ex)), None)
-        except Unsupported as ex:
-            again = ("unsupported", str(ex), None)
+        # re-serialise the command list (tree form, then let-DAG form with one printer for the whole script)
+        # and read it again
+        again = []
+        for dag in (False, True):
+            try:
+                sio = it.call(ExtRef("io.StringIO"), [])
+                it.call(it.getattr(script, "serialize"), [sio], {"daggify": dag})
+                text2 = it.call(it.getattr(sio, "getvalue"), [])
+                ps2 = w.new_walker(PARSER, w.env)
+                script2 = it.call(it.getattr(ps2, "get_script"), [it.call(ExtRef("io.StringIO"), [text2])])
+                again.append(("ok", text2, _cmd_list(w, it, script2)))
+            except AbsRaise as ex:
+                again.append(("raise", "%s%s" % (ex.cls_name, proc._args(ex)), None))
+            except Unsupported as ex:
+                again.append(("unsupported", str(ex), None))
         return (cmds, last, again)
 
     def post(w, f, val, facts):
@@ -461,7 +499,7 @@ def _import_job(job):
     r = res[0]
     # reference side
     try:
-        ref = refsmt.read_script(text)
+        ref = refsmt.read_script(ref_text)
         ref_err = None
     except refsmt.SmtError as e:
         ref, ref_err = None, e
@@ -477,37 +515,14 @@ def _import_job(job):
             out["kind"] = "valid"
             out["detail"] = "rejected (%s); reference: %s" % (str(r.detail)[:80], ref_err)
         return out
-    w, (cmds, last, again) = r.detail
+    w, (cmds, last, agains) = r.detail
     out["again"] = None
-    if again is not None:
-        if again[0] == "raise":
-            out["again"] = ("invalid", "the re-serialised script is rejected by the parser: %s" % again[1])
-        elif again[0] == "unsupported":
-            out["again"] = ("unsupported", again[1])
-        else:
-            c2 = again[2]
-            n1 = [n_ for n_, _a in cmds]
-            n2 = [n_ for n_, _a in c2]
-            if n1 != n2:
-                out["again"] = ("invalid", "commands %s re-serialise to %s" % (n1, n2))
-            else:
-                bad = None
-                for (nm, a1), (_nm2, a2) in zip(cmds, c2):
-                    if nm in ("maximize", "minimize", "assert-soft") and a1 and a2:
-                        o1 = dict((k_, _opt_sig(w, v_)) for k_, v_ in (w.it.iterate(a1[1]) if len(a1) > 1 and a1[1] else []))
-                        o2 = dict((k_, _opt_sig(w, v_)) for k_, v_ in (w.it.iterate(a2[1]) if len(a2) > 1 and a2[1] else []))
-                        if a1[0] is not a2[0] or o1 != o2:
-                            bad = "%s %s %s re-serialises to %s %s" % (nm, sc.node_str(w, a1[0]), o1, sc.node_str(w, a2[0]), o2)
-                            break
-                    if nm == "assert" and a1 and a2 and a1[0] is not a2[0]:
-                        try:
-                            ok, why = textsem.equivalent(textsem.from_node(w, a1[0]), textsem.from_node(w, a2[0]))
-                        except textsem.NotConcrete:
-                            ok = None
-                        if ok is False:
-                            bad = "assert %s re-serialises to %s" % (sc.node_str(w, a1[0]), sc.node_str(w, a2[0]))
-                            break
-                out["again"] = ("invalid", bad) if bad else ("valid", "%d commands" % len(n1))
+    for form, again in zip(("tree form", "let-DAG form"), agains):
+        verdict = _judge_again(w, cmds, again)
+        if verdict[0] != "valid":
+            out["again"] = (verdict[0], "%s: %s" % (form, verdict[1]))
+            break
+        out["again"] = verdict
     if ref is None:
         if ref_err.unsupported:
             out["kind"] = "unsupported"
@@ -696,7 +711,30 @@ def failure_pairs():
     ]
 
 
-def _failure_job(job):
+def reuse_pairs():
+    """(name, accepted script, later script): the later script gives other meanings to names, sorts, definitions
+    and to numerals than the first one did; a parser object used for both must read it as a fresh parser does."""
+    return [
+        ("logic of the first script", "(set-logic QF_LRA)(declare-fun z () Real)(assert (< z 3))",
+         "(declare-fun i () Int)(assert (> i 1))"),
+        ("definition of the first script", "(define-fun g ((p Int)) Int (+ p 1))(declare-fun x () Int)(assert (= (g x) 2))",
+         "(declare-fun g (Int) Int)(declare-fun x () Int)(assert (= (g x) 2))"),
+        ("definition redefined", "(define-fun g ((p Int)) Int (+ p 1))(declare-fun x () Int)(assert (= (g x) 2))",
+         "(define-fun g ((p Int)) Int (* p 2))(declare-fun x () Int)(assert (= (g x) 2))"),
+        ("let binding of the first script", "(declare-fun a () Bool)(assert (let ((t a)) (and t t)))",
+         "(declare-fun t () Int)(declare-fun a () Bool)(assert (and a (< t 1)))"),
+        ("sort abbreviation of the first script", "(define-sort W () Int)(declare-fun k () W)(assert (< k 1))",
+         "(define-sort W () Real)(declare-fun q () W)(assert (< q 1.5))"),
+        ("open levels of the first script", "(declare-fun a () Bool)(push 1)(assert a)",
+         "(declare-fun b () Bool)(assert b)(check-sat)"),
+    ]
+
+
+def _reuse_job(job):
+    return _failure_job(job, first="ok")
+
+
+def _failure_job(job, first="raise"):
     name, bad, good = job
     from .c14_deep import ac_sig
 
@@ -731,20 +769,31 @@ def _failure_job(job):
         if hist is None:
             out.append((name, how, "unsupported", err))
             continue
-        if hist[0][0] != "raise":
-            out.append((name, how, "unsupported", "the first script is not rejected"))
+        if hist[0][0] != first:
+            out.append((name, how, "unsupported", "the first script is %s" % ("not rejected" if first == "raise" else "rejected")))
             continue
         if hist[1] != fresh[0]:
             def show(r):
                 return "raises %s" % r[1] if r[0] == "raise" else "reads %s" % (str(r[1])[:160],)
-            out.append((name, how, "invalid", "after the rejected script %r the script %r %s; in a fresh environment it %s"
-                        % (bad, good, show(hist[1]), show(fresh[0]))))
+            out.append((name, how, "invalid", "after the %s script %r the script %r %s; in a fresh environment it %s"
+                        % ("rejected" if first == "raise" else "earlier", bad, good, show(hist[1]), show(fresh[0]))))
         else:
             out.append((name, how, "valid", "same as in a fresh environment"))
     return out
 
 
 _FAIL = {}
+_REUSE = {}
+
+
+def reuse_results(repo, tier="quick"):
+    key = (repo.root, tier)
+    if key not in _REUSE:
+        out = []
+        for r in parallel_map(_reuse_job, reuse_pairs()):
+            out.extend(r)
+        _REUSE[key] = out
+    return _REUSE[key]
 
 
 def failure_results(repo, tier="quick"):
